@@ -34,25 +34,25 @@ def plan(pid, tier):
     q = tier == "quick"
     P = {}
     if pid == "C01":
-        jobs = [arena_job("histories-core", "core", 1, 3, 1, 45 if q else 600, tier), arena_job("layerA-every-offset", "layera", 1, 3, 1, 40, tier)]
+        jobs = [arena_job("histories-core", "core", 1, 3, 1, 45 if q else 600, tier), arena_job("layerA-every-offset", "layera", 1, 3, 1, 40, tier), arena_job("allocator-api-sweep", "apisweep", 1, 5, 0, 40, tier)]
         if not q:
             jobs = [arena_job("histories-core-d3-dev2", "core", 1, 3, 2, 300, tier), arena_job("histories-core-d4", "core", 1, 4, 1, 500, tier, min_aligns="1,8,16"),
-                    arena_job("histories-core-d3-dbg", "core", 1, 3, 1, 200, tier, build="dbg"), arena_job("layerA-every-offset-dev2", "layera", 1, 3, 2, 400, tier)]
+                    arena_job("histories-core-d3-dbg", "core", 1, 3, 1, 200, tier, build="dbg"), arena_job("layerA-every-offset-dev2", "layera", 1, 3, 2, 400, tier), arena_job("allocator-api-sweep-dev1", "apisweep", 1, 5, 1, 600, tier)]
         return {"level": "model_checking", "jobs": jobs, "owns_crashes": True, "rule": RULE_ARENA, "assumptions": ARENA_ASSUME,
                 "bounds": {"depth": 3 if q else 4, "deviations": 1 if q else 2, "min_align": [1, 2, 4, 8, 16]}, "build_profiles": ("release",) if q else ("release", "dbg")}
     if pid == "C02":
-        jobs = [arena_job("histories-core", "core", 2, 3, 1, 45 if q else 600, tier)]
+        jobs = [arena_job("histories-core", "core", 2, 3, 1, 45 if q else 600, tier), arena_job("allocator-api-sweep", "apisweep", 2, 5, 0, 40, tier)]
         if not q:
-            jobs = [arena_job("histories-core-d3-dev2", "core", 2, 3, 2, 300, tier), arena_job("histories-core-d4", "core", 2, 4, 1, 500, tier, min_aligns="1,8,16")]
+            jobs = [arena_job("histories-core-d3-dev2", "core", 2, 3, 2, 300, tier), arena_job("histories-core-d4", "core", 2, 4, 1, 500, tier, min_aligns="1,8,16"), arena_job("allocator-api-sweep-dev1", "apisweep", 2, 5, 1, 600, tier)]
         return {"level": "model_checking", "jobs": jobs, "owns_crashes": True, "rule": RULE_ARENA, "assumptions": ARENA_ASSUME, "bounds": {"depth": 3 if q else 4, "deviations": 1 if q else 2}}
     if pid == "C03":
         jobs = [arena_job("histories-ledger", "ledger", 3, 3, 1, 45, tier)] if q else [arena_job("histories-ledger-d3-dev2", "ledger", 3, 3, 2, 300, tier), arena_job("histories-ledger-d4", "ledger", 3, 4, 1, 500, tier, min_aligns="1,8,16")]
         return {"level": "model_checking", "jobs": jobs, "owns_crashes": True, "rule": RULE_ARENA, "assumptions": ARENA_ASSUME, "bounds": {"depth": 3 if q else 4, "deviations": 1 if q else 2}}
     if pid == "C04":
-        jobs = [arena_job("histories-core", "core", 4, 3, 1, 45 if q else 600, tier), arena_job("layerA-every-offset", "layera", 4, 3, 1, 40, tier), grid_job("ctor-matrix", "ctor", 4, tier)]
+        jobs = [arena_job("histories-core", "core", 4, 3, 1, 45 if q else 600, tier), arena_job("layerA-every-offset", "layera", 4, 3, 1, 40, tier), grid_job("ctor-matrix", "ctor", 4, tier), arena_job("allocator-api-sweep", "apisweep", 4, 5, 0, 40, tier)]
         if not q:
             jobs = [arena_job("histories-core-d3-dev2", "core", 4, 3, 2, 300, tier), arena_job("histories-core-d4", "core", 4, 4, 1, 500, tier, min_aligns="2,8,16"),
-                    arena_job("layerA-every-offset-dev2", "layera", 4, 3, 2, 400, tier), grid_job("ctor-matrix", "ctor", 4, tier), grid_job("ctor-matrix-dbg", "ctor", 4, tier, build="dbg")]
+                    arena_job("layerA-every-offset-dev2", "layera", 4, 3, 2, 400, tier), grid_job("ctor-matrix", "ctor", 4, tier), grid_job("ctor-matrix-dbg", "ctor", 4, tier, build="dbg"), arena_job("allocator-api-sweep-dev1", "apisweep", 4, 5, 1, 600, tier)]
         return {"level": "model_checking", "jobs": jobs, "owns_crashes": False, "rule": RULE_ARENA, "assumptions": ARENA_ASSUME, "bounds": {"depth": 3 if q else 4, "deviations": 1 if q else 2},
                 "build_profiles": ("release",) if q else ("release", "dbg")}
     if pid == "C06":
@@ -77,10 +77,15 @@ def plan(pid, tier):
         jobs = [arena_job("prefix2-x-initialisers", "init", 11, 3, 1, 45, tier)] if q else [arena_job("prefix3-x-initialisers", "init", 11, 4, 1, 600, tier), arena_job("prefix2-dev2", "init", 11, 3, 2, 300, tier)]
         return {"level": "model_checking", "jobs": jobs, "owns_crashes": False, "rule": RULE_ARENA, "assumptions": ARENA_ASSUME, "bounds": {"depth": 3 if q else 4, "deviations": 1 if q else 2}}
     if pid == "C12":
-        jobs = [arena_job("allocator-api", "allocapi", 12, 3, 1, 45, tier)] if q else [arena_job("allocator-api-d4", "allocapi", 12, 4, 1, 700, tier, min_aligns="1,8,16"), arena_job("allocator-api-d3-dev2", "allocapi", 12, 3, 2, 300, tier)]
+        jobs = [arena_job("allocator-api", "allocapi", 12, 3, 1, 45, tier), arena_job("allocator-api-sweep", "apisweep", 12, 5, 0, 40, tier)] if q else [arena_job("allocator-api-d4", "allocapi", 12, 4, 1, 700, tier, min_aligns="1,8,16"), arena_job("allocator-api-d3-dev2", "allocapi", 12, 3, 2, 300, tier), arena_job("allocator-api-sweep-dev1", "apisweep", 12, 5, 1, 600, tier)]
         return {"level": "model_checking", "jobs": jobs, "owns_crashes": True, "rule": RULE_ARENA, "assumptions": ARENA_ASSUME, "bounds": {"depth": 3 if q else 4, "deviations": 1 if q else 2}}
     if pid in ("C13", "C14", "C15", "C16", "C17"):
         return coll_plan(pid, tier)
+    if pid == "C05":
+        return {"level": "exploration", "jobs": [{"name": "probe-programs-vs-rustc", "kind": "external", "args": []}], "owns_crashes": False,
+                "rule": "enumerate every client program of a statement grammar (create one or two holders of 12 kinds carrying the arena lifetime; use / drop them; 7 arena events: reset, chunk iteration, drop, move, allocate, move into a spawned thread, share with a scoped thread) up to the length bound, plus fixed escape / positive / auto-trait probes; a reference ownership model predicts accept or reject and rustc's verdict (cargo check diagnostics mapped to probe functions) is compared for every program; a program is non-trivial when rustc rejects it",
+                "assumptions": ["rustc 1.95's borrow checker and trait solver are the judge; the reference model (loans live to last use, or to scope end for types with drop glue) is only the expectation", "programs outside the grammar (generic clients, unsafe code, other statement kinds) are not covered"],
+                "bounds": {"statements_after_creation": 2 if q else 3, "holders": 2, "holder_kinds": 12, "events": 7}}
     if pid == "C18":
         jobs = [grid_job("capacity-compositions", "capacity", 18, tier), grid_job("growth-workloads", "growth", 18, tier, slab_mb=64), arena_job("chunk-capacity-probe", "capprobe", 18, 3, 1, 40, tier), grid_job("vec-string-capacity", "vecgrowth", 18, tier, slab_mb=64)]
         if not q:
@@ -161,11 +166,40 @@ def crash_signature(c):
 
 
 def run_external(job, pid, tier, root):
-    raise RuntimeError("no external jobs yet")
+    import c05
+    r = c05.run(tier, root)
+    if r.get("machinery"):
+        print("MACHINERY-ERROR: C05 probes: " + r["machinery"], flush=True)
+        sys.exit(2)
+    viol = []
+    seen = set()
+    for v in r["violations"]:
+        if v["key"] in seen:
+            continue
+        seen.add(v["key"])
+        v = dict(v)
+        v["hist_hex"] = None
+        v["history"] = {"program": v["detail"], "source": v["probe_source"]}
+        viol.append(v)
+    nontrivial = r["rejected"] + sum(1 for _ in range(0))
+    return {"states": 0, "transitions": 0, "executions": r["programs"], "distinct_outcomes": r["rejected"], "violations": viol, "violations_total": len(r["violations"]), "caps_hit": [], "coverage_events": {"accepted_by_rustc": r["accepted"], "rejected_by_rustc": r["rejected"]},
+            "samples": r["samples"], "wall_s": r["wall_s"], "extra": {"engine": "c05 probe generator + rustc", "nonborrow_errors": r.get("nonborrow_errors")}}
 
 
 def replay_external(rec, root):
-    raise RuntimeError("no external jobs yet")
+    import c05
+    src = rec.get("history", {}).get("source")
+    if not src:
+        print("replay file has no probe source")
+        return 2
+    d, ranges = c05.build_crate(root, "c05_replay", [("probe", src)])
+    rc, errs, stderr = c05.cargo_check(d)
+    print("\n".join(src))
+    print("rustc verdict:", "rejected: " + "; ".join("%s %s" % (e["code"], e["text"]) for e in errs) if errs else "accepted")
+    print("expected:", rec.get("clause"))
+    hit = (rec.get("clause") == "accepted_but_must_be_rejected" and not errs) or (rec.get("clause") == "rejected_but_must_be_accepted" and errs)
+    print("REPRODUCED" if hit else "NOT-REPRODUCED")
+    return 1 if hit else 0
 
 
 def setup_extra(root):
